@@ -63,6 +63,7 @@ inline std::vector<GGroup> buildGroups(const Content& c, const Layout& l) {
     if (!c.noDataStart) P.params.push_back(GParam::ints("DATA_START", {}, {0}, true));      // patched by encode(); some vendor files do not carry it
     if (c.extra == "dsprefix") P.params.push_back(GParam::ints("DATA_START_FRAME", {}, {705}));   // a look-alike name in the POINT group itself
     P.params.push_back(GParam::ints("FRAMES", {}, {c.nFrames}, true));
+    if (!(c.optParams == "nolabels" && c.nPoints == 0))
     {   int n = std::min(255, std::max(0, c.nPoints + c.labelsDelta)); std::vector<std::string> v; for (int i = 0; i < n; ++i) v.push_back(ptLabel(i)); if (c.blankLabel && n > 0) v[(size_t)n - 1] = "    "; P.params.push_back(GParam::strs("LABELS", 4, {n}, v, D("labels")));
         int nd = std::min(c.nPoints, 255); std::vector<std::string> d; for (int i = 0; i < nd; ++i) d.push_back(i % 2 ? "" : "desc" + std::to_string(i)); if (c.optParams != "minimal") P.params.push_back(GParam::strs("DESCRIPTIONS", 8, {nd}, d)); }
     if (c.optParams != "minimal") P.params.push_back(GParam::strs("UNITS", 4, {}, {"mm"}));           // 1-D padded string
@@ -70,6 +71,7 @@ inline std::vector<GGroup> buildGroups(const Content& c, const Layout& l) {
     GGroup A; A.name = "ANALOG"; A.desc = D("analog parameters");
     if (!c.analogGroupEmpty) {
         A.params.push_back(GParam::ints("USED", {}, {c.nChans}, true));
+        if (!(c.optParams == "nolabels" && c.nChans == 0))
         {   int n = std::max(0, c.nChans + c.alabelsDelta); std::vector<std::string> v; for (int i = 0; i < n; ++i) v.push_back(chLabel(i)); A.params.push_back(GParam::strs("LABELS", 4, {n}, v)); }
         A.params.push_back(GParam::floats("GEN_SCALE", {}, {f2b(1.0f)}));
         { std::vector<uint32_t> v; for (int i = 0; i < c.nChans; ++i) v.push_back(f2b(1.0f + (float)i)); A.params.push_back(GParam::floats("SCALE", {c.nChans}, v)); }
@@ -192,7 +194,7 @@ inline std::vector<Dim> dims(bool thorough) {
     d.push_back({"reserved", {"zero", "nonzero"}});
     d.push_back({"datastart", {"present", "absent"}});
     d.push_back({"padblocks", {"0", "1", "3"}});
-    d.push_back({"optparams", {"std", "minimal", "rich"}});
+    d.push_back({"optparams", {"std", "minimal", "rich", "nolabels"}});   // nolabels: a file without points (channels) need not carry POINT:LABELS (ANALOG:LABELS)
     return d;
 }
 using Choice = std::map<std::string, std::string>;
@@ -208,7 +210,7 @@ inline bool apply(const Choice& ch, Content& c, Layout& l) {   // returns false 
     l.lastOffsetZero = get("lastoff", "ptr") == "zero";
     c.reservedNonZero = get("reserved", "zero") == "nonzero";
     c.noDataStart = get("datastart", "present") == "absent";
-    c.padBlocks = atoi(get("padblocks", "0").c_str()); c.optParams = get("optparams", "std");
+    c.padBlocks = atoi(get("padblocks", "0").c_str()); c.optParams = get("optparams", "std"); if (c.optParams == "nolabels" && c.nPoints != 0 && c.nChans != 0) return false; if (c.optParams == "nolabels" && (ch.count("labels") || ch.count("alabels"))) return false;
     c.longNames = get("names", "std") == "long"; if (c.longNames && c.extra == "none") return false;
     if (get("hdrwords", "std") == "odd") { c.gapWord = 65535; c.keyLabel = 12345; c.firstKeyBlock = 7; c.scaleBits = 0xBE800000u; }
     c.analogGroupEmpty = get("agroup", "full") == "empty"; if (c.analogGroupEmpty) { if (ch.count("chans") && ch.at("chans") != "0") return false; c.nChans = 0; if (ch.count("alabels")) return false; }
